@@ -30,15 +30,25 @@ def jsonable(x):
 class Report:
     def __init__(self, name, pid, rule, label="bounded"):
         self.name, self.pid, self.rule, self.label = name, pid, rule, label
-        self.evaluations = 0; self.distinct = set(); self.failures = []; self.samples = []; self.grid = None
+        self.last_input = None; self.evaluations = 0; self.distinct = set(); self.failures = []; self.samples = []; self.grid = None
 
     def case(self, key, sample=None):
+        self.last_input = sample if sample is not None else jsonable(key)
         self.evaluations += 1; self.distinct.add(json.dumps(jsonable(key), sort_keys=True, default=str))
         if sample is not None and len(self.samples) < 3: self.samples.append(jsonable(sample))
 
     def fail(self, check, what, inp, observed=None, expected=None):
         if len(self.failures) < 40:
             self.failures.append({"check": check, "what": what, "input": jsonable(inp), "observed": jsonable(observed), "expected": jsonable(expected)})
+
+    def run(self, body):
+        """run the harness body; an exception escaping from the code under test is a failing case (the last case started), not a harness crash"""
+        import traceback
+        try: body(self)
+        except Exception as ex:
+            tb = traceback.format_exc()
+            self.fail(self.name + ".code_under_test_raised", f"{type(ex).__name__} raised while checking this case", getattr(self, "last_input", None), tb[-700:], "no exception")
+        return self
 
     def write(self, out):
         known = json.load(open(os.path.join(ROOT, "known_findings.json")))
